@@ -1,7 +1,426 @@
-(* C16 placeholder: theorems land with Proofs/WorldProofs.v *)
-From Coq Require Import ZArith List.
-From V Require Import Result World.
+(* C16 -- the owning collections behave like the built-in list, set and dict: ir.modules the mutable-sequence
+   interface, the node sets (sections, symbols, proxies, byte_intervals, blocks) the mutable-set interface,
+   symbolic_expressions the mutable-mapping interface -- resulting contents and exception types of the built-in
+   operation on the same elements (module order = list order, node sets unordered, symbolic expressions by offset),
+   except that a node inserted while owned elsewhere is moved rather than duplicated; a failed operation leaves the
+   collection and its elements consistent.
+   Model: Model/World.v (do_set and the ten set methods over set_add / set_discard / blocks_update; the IR module list
+   ml_insert / ml_append / ml_remove / ml_del_at and the slice operations of `step`; the sorted map sd_set / dict_del),
+   Model/WorldGuard.v.  field w p fk = the members of one field of owner p (its children of the field's kinds).
+   Only property theorems here; proofs in Proofs/SetOpsProofs.v, ModListProofs.v, SymxProofs.v, WorldInv.v,
+   WorldProps.v.
+   Known finding (recorded as D4, refused by the model with Err EImpossible): item / slice assignment of a module that
+   stays elsewhere in the same list, or of a list with repetitions -- see C16_same_list_assignment_refused. *)
+From Coq Require Import ZArith List Bool.
+From V Require Import Result LazyTree World WorldGuard WorldRun ForestDefs InvDefs WorldInv WorldProps.
+From V Require SetOpsProofs ModListProofs SymxProofs.
 Import ListNotations.
-Theorem C16_new_detached : forall w n k u a s f nm p, par (step' w (ONew n k u a s f nm p)) n = None.
-Proof. intros. unfold step', step, par, getn. destruct k; cbn; unfold upd; rewrite Z.eqb_refl; reflexivity. Qed.
-Print Assumptions C16_new_detached.
+Open Scope Z_scope.
+
+(* ================= node sets: the ten methods of the mutable-set interface ================= *)
+
+Theorem C16_set_add : forall w known p fk c, reachable_k w known -> op_okb w known (OSet p fk SAdd [[c]]) = true ->
+  exists w', step w (OSet p fk SAdd [[c]]) = Ok w' /\
+             forall x, In x (field w' p fk) <-> In x (field w p fk) \/ x = c.
+Proof.
+  intros w known p fk c R G.
+  destruct (SetOpsProofs.oset_add_effect w known p fk c (reach_forest w known R) (reach_cache w known R) G) as (w' & E & _ & M).
+  exists w'. exact (conj E M).
+Qed.
+
+Theorem C16_set_discard : forall w known p fk c, reachable_k w known -> op_okb w known (OSet p fk SDiscard [[c]]) = true ->
+  exists w', step w (OSet p fk SDiscard [[c]]) = Ok w' /\
+             forall x, In x (field w' p fk) <-> In x (field w p fk) /\ x <> c.
+Proof.
+  intros w known p fk c R G.
+  destruct (SetOpsProofs.oset_discard_effect w known p fk c (reach_forest w known R) (reach_cache w known R) G) as (w' & E & _ & M).
+  exists w'. exact (conj E M).
+Qed.
+
+(* remove: KeyError exactly for a non-member *)
+Theorem C16_set_remove : forall w known p fk c, reachable_k w known -> op_okb w known (OSet p fk SRemove [[c]]) = true ->
+  (~ In c (field w p fk) -> step w (OSet p fk SRemove [[c]]) = Err EKey) /\
+  (In c (field w p fk) ->
+   exists w', step w (OSet p fk SRemove [[c]]) = Ok w' /\
+              forall x, In x (field w' p fk) <-> In x (field w p fk) /\ x <> c).
+Proof.
+  intros w known p fk c R G.
+  destruct (SetOpsProofs.oset_remove_effect w known p fk c (reach_forest w known R) (reach_cache w known R) G) as [A B].
+  split; [intros H; apply A, SetOpsBase.mem_false, H|].
+  intros H. destruct (B (proj2 (SetOpsBase.mem_In _ _) H)) as (w' & E & _ & M). exists w'. exact (conj E M).
+Qed.
+
+(* pop: KeyError exactly on the empty set; otherwise the chosen member c (args = [[c]]) is removed *)
+Theorem C16_set_pop : forall w known p fk args, reachable_k w known -> op_okb w known (OSet p fk SPop args) = true ->
+  (step w (OSet p fk SPop args) = Err EKey <-> field w p fk = []) /\
+  (forall c, args = [[c]] -> In c (field w p fk) ->
+   exists w', step w (OSet p fk SPop args) = Ok w' /\
+              forall x, In x (field w' p fk) <-> In x (field w p fk) /\ x <> c).
+Proof.
+  intros w known p fk args R G.
+  destruct (SetOpsProofs.oset_pop_effect w known p fk args (reach_forest w known R) (reach_cache w known R) G) as [A B].
+  split; [exact A|]. intros c Ha H.
+  destruct (B c Ha (proj2 (SetOpsBase.mem_In _ _) H)) as (w' & E & _ & M). exists w'. exact (conj E M).
+Qed.
+
+Theorem C16_set_clear : forall w known p fk args, reachable_k w known -> op_okb w known (OSet p fk SClear args) = true ->
+  exists w', step w (OSet p fk SClear args) = Ok w' /\ field w' p fk = [].
+Proof.
+  intros w known p fk args R G.
+  destruct (SetOpsProofs.oset_clear_effect w known p fk args (reach_forest w known R) (reach_cache w known R) G) as (w' & E & _ & M).
+  exists w'. exact (conj E M).
+Qed.
+
+(* update(it1, it2, ...) *)
+Theorem C16_set_update : forall w known p fk args, reachable_k w known -> op_okb w known (OSet p fk SUpdate args) = true ->
+  exists w', step w (OSet p fk SUpdate args) = Ok w' /\
+             forall x, In x (field w' p fk) <-> In x (field w p fk) \/ In x (concat args).
+Proof.
+  intros w known p fk args R G.
+  destruct (SetOpsProofs.oset_update_effect w known p fk args (reach_forest w known R) (reach_cache w known R) G) as (w' & E & _ & M).
+  exists w'. exact (conj E M).
+Qed.
+
+Theorem C16_set_ior : forall w known p fk a, reachable_k w known -> op_okb w known (OSet p fk SIor [a]) = true ->
+  exists w', step w (OSet p fk SIor [a]) = Ok w' /\
+             forall x, In x (field w' p fk) <-> In x (field w p fk) \/ In x a.
+Proof.
+  intros w known p fk a R G.
+  destruct (SetOpsProofs.oset_ior_effect w known p fk a (reach_forest w known R) (reach_cache w known R) G) as (w' & E & _ & M).
+  exists w'. exact (conj E M).
+Qed.
+
+Theorem C16_set_iand : forall w known p fk a, reachable_k w known -> op_okb w known (OSet p fk SIand [a]) = true ->
+  exists w', step w (OSet p fk SIand [a]) = Ok w' /\
+             forall x, In x (field w' p fk) <-> In x (field w p fk) /\ In x a.
+Proof.
+  intros w known p fk a R G.
+  destruct (SetOpsProofs.oset_iand_effect w known p fk a (reach_forest w known R) (reach_cache w known R) G) as (w' & E & _ & M).
+  exists w'. exact (conj E M).
+Qed.
+
+Theorem C16_set_isub : forall w known p fk a, reachable_k w known -> op_okb w known (OSet p fk SIsub [a]) = true ->
+  exists w', step w (OSet p fk SIsub [a]) = Ok w' /\
+             forall x, In x (field w' p fk) <-> In x (field w p fk) /\ ~ In x a.
+Proof.
+  intros w known p fk a R G.
+  destruct (SetOpsProofs.oset_isub_effect w known p fk a (reach_forest w known R) (reach_cache w known R) G) as (w' & E & _ & M).
+  exists w'. exact (conj E M).
+Qed.
+
+Theorem C16_set_ixor : forall w known p fk a, reachable_k w known -> op_okb w known (OSet p fk SIxor [a]) = true ->
+  exists w', step w (OSet p fk SIxor [a]) = Ok w' /\
+             forall x, In x (field w' p fk) <-> (In x (field w p fk) /\ ~ In x a) \/ (~ In x (field w p fk) /\ In x a).
+Proof.
+  intros w known p fk a R G.
+  destruct (SetOpsProofs.oset_ixor_effect w known p fk a (reach_forest w known R) (reach_cache w known R) G) as (w' & E & _ & M).
+  exists w'. exact (conj E M).
+Qed.
+
+(* ================= ir.modules: the mutable-sequence interface =================
+   every effect is the list operation applied to the list from which a moved module was first removed *)
+
+Theorem C16_modlist_append : forall w known ir v, reachable_k w known -> op_okb w known (OModAppend ir v) = true ->
+  exists w', step w (OModAppend ir v) = Ok w' /\
+    kids w' ir = remove_id v (kids w ir) ++ [v] /\
+    (forall x, x <> ir -> kids w' x = remove_id v (kids w x)) /\
+    (forall x, nodes w' x = if x =? v then Some (with_par (getn w v) (Some ir)) else nodes w x) /\
+    par w' v = Some ir.
+Proof.
+  intros w known ir v R. exact (ModListProofs.append_effect w known ir v (reach_forest w known R) (reach_cache w known R)).
+Qed.
+
+(* insert(i, v): i clamped into [0, len] as list.insert does *)
+Theorem C16_modlist_insert : forall w known ir i v, reachable_k w known -> op_okb w known (OModInsert ir i v) = true ->
+  let l := remove_id v (kids w ir) in
+  exists w', step w (OModInsert ir i v) = Ok w' /\
+    kids w' ir = insert_at (clamp_insert i (length l)) v l /\
+    (forall x, x <> ir -> kids w' x = remove_id v (kids w x)) /\
+    (forall x, nodes w' x = if x =? v then Some (with_par (getn w v) (Some ir)) else nodes w x) /\
+    par w' v = Some ir.
+Proof.
+  intros w known ir i v R. exact (ModListProofs.insert_effect w known ir i v (reach_forest w known R) (reach_cache w known R)).
+Qed.
+
+(* extend(vs) / += : append one after the other; for fresh distinct modules this is l ++ vs *)
+Theorem C16_modlist_extend : forall w known ir vs, reachable_k w known -> op_okb w known (OModExtend ir vs) = true ->
+  exists w', step w (OModExtend ir vs) = Ok w' /\
+    kids w' ir = fold_left (fun l v => remove_id v l ++ [v]) vs (kids w ir) /\
+    (NoDup vs -> (forall v, In v vs -> ~ In v (kids w ir)) -> kids w' ir = kids w ir ++ vs) /\
+    (forall x, x <> ir -> kids w' x = fold_left (fun l v => remove_id v l) vs (kids w x)) /\
+    (forall x, nodes w' x = if mem x vs then Some (with_par (getn w x) (Some ir)) else nodes w x).
+Proof.
+  intros w known ir vs R. exact (ModListProofs.extend_effect w known ir vs (reach_forest w known R) (reach_cache w known R)).
+Qed.
+
+(* remove(v): ValueError exactly when v is not in the list *)
+Theorem C16_modlist_remove : forall w known ir v, reachable_k w known -> op_okb w known (OModRemove ir v) = true ->
+  (~ In v (kids w ir) -> step w (OModRemove ir v) = Err EValue) /\
+  (In v (kids w ir) ->
+   exists i w', index_of v (kids w ir) = Some i /\ step w (OModRemove ir v) = Ok w' /\
+     kids w' ir = remove_at i (kids w ir) /\ kids w' ir = remove_id v (kids w ir) /\
+     (forall x, x <> ir -> kids w' x = kids w x) /\
+     (forall x, nodes w' x = if x =? v then Some (with_par (getn w v) None) else nodes w x) /\
+     par w' v = None).
+Proof. intros w known ir v R. exact (op_remove_effect w known ir v (invall_reachable w known R)). Qed.
+
+(* pop(i) / del l[i]: IndexError exactly when i is out of range after Python's index normalisation; pop returns v *)
+Theorem C16_modlist_pop_delitem : forall w known ir i o, reachable_k w known ->
+  o = OModPop ir i \/ o = OModDelItem ir i -> op_okb w known o = true ->
+  match norm_index i (length (kids w ir)) with
+  | None => step w o = Err EIndex
+  | Some k =>
+    exists v w', nth_error (kids w ir) k = Some v /\ step w o = Ok w' /\
+      kids w' ir = remove_at k (kids w ir) /\
+      (forall x, x <> ir -> kids w' x = kids w x) /\
+      (forall x, nodes w' x = if x =? v then Some (with_par (getn w v) None) else nodes w x) /\
+      par w' v = None
+  end.
+Proof. intros w known ir i o R. exact (op_del_effect w known ir i o (invall_reachable w known R)). Qed.
+
+(* del l[a:b] with slice.indices clamping *)
+Theorem C16_modlist_delslice : forall w known ir a b, reachable_k w known -> op_okb w known (OModDelSlice ir a b) = true ->
+  let l := kids w ir in
+  let lo := norm_bound a 0 (length l) in
+  let hi := Z.max lo (norm_bound b (Z.of_nat (length l)) (length l)) in
+  let victims := ModListProofs.slice_victims l lo hi in
+  exists w', step w (OModDelSlice ir a b) = Ok w' /\
+    kids w' ir = firstn (Z.to_nat lo) l ++ skipn (Z.to_nat hi) l /\
+    (forall x, x <> ir -> kids w' x = kids w x) /\
+    (forall x, nodes w' x = if mem x victims then Some (with_par (getn w x) None) else nodes w x) /\
+    (forall x, In x victims -> par w' x = None) /\
+    (forall x, x <> ir -> cache w' x = cache w x).
+Proof.
+  intros w known ir a b R. exact (ModListProofs.delslice_effect w known ir a b (reach_forest w known R) (reach_cache w known R)).
+Qed.
+
+(* l[i] = v for v not elsewhere in this list *)
+Theorem C16_modlist_setitem : forall w known ir i v k old, reachable_k w known -> op_okb w known (OModSetItem ir i v) = true ->
+  norm_index i (length (kids w ir)) = Some k -> nth_error (kids w ir) k = Some old ->
+  (~ In v (kids w ir) \/ v = old) ->
+  exists w', step w (OModSetItem ir i v) = Ok w' /\
+    kids w' ir = set_at k v (kids w ir) /\
+    (forall x, x <> ir -> kids w' x = remove_id v (kids w x)) /\
+    (forall x, nodes w' x = if x =? v then Some (with_par (getn w v) (Some ir))
+                            else if x =? old then Some (with_par (getn w old) None) else nodes w x) /\
+    par w' v = Some ir /\ (v <> old -> par w' old = None).
+Proof.
+  intros w known ir i v k old R.
+  exact (ModListProofs.setitem_effect w known ir i v k old (reach_forest w known R) (reach_cache w known R)).
+Qed.
+
+Theorem C16_modlist_setitem_index_error : forall w ir i v,
+  norm_index i (length (kids w ir)) = None -> step w (OModSetItem ir i v) = Err EIndex.
+Proof. exact ModListProofs.setitem_effect_index. Qed.
+
+(* l[a:b] = vs for distinct vs none of which stays elsewhere in this list *)
+Theorem C16_modlist_setslice : forall w known ir a b vs, reachable_k w known -> op_okb w known (OModSetSlice ir a b vs) = true ->
+  let l := kids w ir in
+  let lo := norm_bound a 0 (length l) in
+  let hi := Z.max lo (norm_bound b (Z.of_nat (length l)) (length l)) in
+  let pre := firstn (Z.to_nat lo) l in
+  let victims := ModListProofs.slice_victims l lo hi in
+  let post := skipn (Z.to_nat hi) l in
+  NoDup vs -> (forall v, In v vs -> ~ In v pre /\ ~ In v post) ->
+  exists w', step w (OModSetSlice ir a b vs) = Ok w' /\
+    kids w' ir = pre ++ vs ++ post /\
+    (forall x, x <> ir -> kids w' x = fold_left (fun l v => remove_id v l) vs (kids w x)) /\
+    (forall x, nodes w' x = if mem x vs then Some (with_par (getn w x) (Some ir))
+                            else if mem x victims then Some (with_par (getn w x) None) else nodes w x).
+Proof.
+  intros w known ir a b vs R.
+  exact (ModListProofs.setslice_effect w known ir a b vs (reach_forest w known R) (reach_cache w known R)).
+Qed.
+
+(* the known finding: the same-list shapes are refused by the model (the implementation corrupts the list there) *)
+Theorem C16_same_list_assignment_refused :
+  (forall w ir i v k old, norm_index i (length (kids w ir)) = Some k -> nth_error (kids w ir) k = Some old ->
+     In v (kids w ir) -> v <> old -> step w (OModSetItem ir i v) = Err EImpossible) /\
+  (forall w ir a b vs,
+     let l := kids w ir in
+     let lo := norm_bound a 0 (length l) in
+     let hi := Z.max lo (norm_bound b (Z.of_nat (length l)) (length l)) in
+     (exists v, In v vs /\ (In v (firstn (Z.to_nat lo) l) \/ In v (skipn (Z.to_nat hi) l))) \/ ~ NoDup vs ->
+     step w (OModSetSlice ir a b vs) = Err EImpossible).
+Proof. exact (conj ModListProofs.setitem_effect_refused ModListProofs.setslice_effect_refused). Qed.
+
+Theorem C16_modlist_clear : forall w known ir, reachable_k w known -> op_okb w known (OModClear ir) = true ->
+  exists w', step w (OModClear ir) = Ok w' /\
+    kids w' ir = [] /\
+    (forall x, x <> ir -> kids w' x = kids w x) /\
+    (forall x, nodes w' x = if mem x (kids w ir) then Some (with_par (getn w x) None) else nodes w x) /\
+    (forall x, In x (kids w ir) -> par w' x = None) /\
+    (forall x, x <> ir -> cache w' x = cache w x).
+Proof.
+  intros w known ir R. exact (ModListProofs.clear_effect w known ir (reach_forest w known R) (reach_cache w known R)).
+Qed.
+
+Theorem C16_modlist_reverse : forall w ir,
+  exists w', step w (OModReverse ir) = Ok w' /\ kids w' ir = rev (kids w ir) /\
+    (forall x, x <> ir -> kids w' x = kids w x) /\ (forall x, nodes w' x = nodes w x) /\ (forall x, cache w' x = cache w x).
+Proof. exact ModListProofs.reverse_effect. Qed.
+
+(* ================= symbolic_expressions: the mutable-mapping interface ================= *)
+
+(* iteration is by ascending offset, one entry per offset *)
+Theorem C16_symx_iteration_sorted : forall w known bi, reachable_k w known -> strictly_ascending (map fst (symx w bi)).
+Proof. intros w known bi R. exact (reach_sorted w known R bi). Qed.
+
+Theorem C16_symx_setitem : forall w bi k e,
+  let o := OSymxSet bi k e in
+  step w o = Ok (step' w o) /\
+  dict_get Z.eqb k (symx (step' w o) bi) = Some e /\
+  (forall k', k' <> k -> dict_get Z.eqb k' (symx (step' w o) bi) = dict_get Z.eqb k' (symx w bi)).
+Proof. exact SymxProofs.symx_set_spec. Qed.
+
+(* del d[k] / d.pop(k): KeyError exactly for a missing key *)
+Theorem C16_symx_del_pop : forall w bi k o, o = OSymxDel bi k \/ o = OSymxPop bi k ->
+  (dict_get Z.eqb k (symx w bi) = None -> step w o = Err EKey /\ step' w o = w) /\
+  (dict_get Z.eqb k (symx w bi) <> None ->
+     step w o = Ok (step' w o) /\
+     dict_get Z.eqb k (symx (step' w o) bi) = None /\
+     (forall k', k' <> k -> dict_get Z.eqb k' (symx (step' w o) bi) = dict_get Z.eqb k' (symx w bi))).
+Proof. exact SymxProofs.symx_del_spec. Qed.
+
+(* popitem: KeyError on the empty map, else the entry with the smallest offset (next(iter(d))) *)
+Theorem C16_symx_popitem : forall w known bi, reachable_k w known ->
+  let o := OSymxPopitem bi in
+  match symx w bi with
+  | [] => step w o = Err EKey /\ step' w o = w
+  | (k0, e0) :: d =>
+      step w o = Ok (step' w o) /\
+      symx (step' w o) bi = d /\
+      (forall k, dict_get Z.eqb k (symx w bi) <> None -> k0 <= k) /\
+      dict_get Z.eqb k0 (symx (step' w o) bi) = None /\
+      (forall k, k <> k0 -> dict_get Z.eqb k (symx (step' w o) bi) = dict_get Z.eqb k (symx w bi))
+  end.
+Proof. intros w known bi R. exact (SymxProofs.symx_popitem_spec w bi (reach_sorted w known R bi)). Qed.
+
+Theorem C16_symx_setdefault : forall w bi k e,
+  let o := OSymxSetdefault bi k e in
+  step w o = Ok (step' w o) /\
+  (dict_get Z.eqb k (symx w bi) <> None -> step' w o = w) /\
+  (dict_get Z.eqb k (symx w bi) = None ->
+     dict_get Z.eqb k (symx (step' w o) bi) = Some e /\
+     (forall k', k' <> k -> dict_get Z.eqb k' (symx (step' w o) bi) = dict_get Z.eqb k' (symx w bi))).
+Proof. exact SymxProofs.symx_setdefault_spec. Qed.
+
+(* update(pairs): later pairs win *)
+Theorem C16_symx_update : forall w bi kvs,
+  let o := OSymxUpdate bi kvs in
+  step w o = Ok (step' w o) /\
+  forall k, dict_get Z.eqb k (symx (step' w o) bi) =
+            match dict_get Z.eqb k (rev kvs) with Some e => Some e | None => dict_get Z.eqb k (symx w bi) end.
+Proof. exact SymxProofs.symx_update_spec. Qed.
+
+Theorem C16_symx_clear : forall w bi,
+  let o := OSymxClear bi in step w o = Ok (step' w o) /\ symx (step' w o) bi = [].
+Proof. exact SymxProofs.symx_clear_spec. Qed.
+
+(* bi.symbolic_expressions = mapping : clear, then update *)
+Theorem C16_symx_assign : forall w bi kvs,
+  let o := OSymxAssign bi kvs in
+  step w o = Ok (step' w o) /\
+  (forall k, dict_get Z.eqb k (symx (step' w o) bi) = dict_get Z.eqb k (rev kvs)) /\
+  symx (step' w o) bi = symx (step' (step' w (OSymxClear bi)) (OSymxUpdate bi kvs)) bi.
+Proof. exact SymxProofs.symx_assign_spec. Qed.
+
+(* a mapping operation touches only that interval's map *)
+Theorem C16_symx_frame : forall w o bi, SymxProofs.symx_target o = Some bi ->
+  (forall n, nodes (step' w o) n = nodes w n) /\ (forall n, kids (step' w o) n = kids w n) /\
+  (forall n, cache (step' w o) n = cache w n) /\ (forall n, nix (step' w o) n = nix w n) /\
+  (forall n, rix (step' w o) n = rix w n) /\ (forall n, tree (step' w o) n = tree w n) /\
+  (forall b, b <> bi -> symx (step' w o) b = symx w b).
+Proof. exact SymxProofs.symx_op_frame. Qed.
+
+(* ================= moved, not duplicated; failures ================= *)
+
+(* after any guarded operation: no collection holds a node twice, no node sits in two collections, and the
+   collections agree with the parent attributes (the relative order of the other elements is kept: every effect
+   above is stated with remove_id = filter) *)
+Theorem C16_moved_not_duplicated : forall w known o, reachable_k w known -> op_okb w known o = true ->
+  (forall p, NoDup (kids (step' w o) p)) /\
+  (forall c p q, In c (kids (step' w o) p) -> In c (kids (step' w o) q) -> p = q) /\
+  (forall p c, In c (kids (step' w o) p) <-> par (step' w o) c = Some p).
+Proof. intros w known o R. exact (moved_not_duplicated w known o (invall_reachable w known R)). Qed.
+
+Theorem C16_remove_id_keeps_order : forall v l, remove_id v l = filter (fun y => negb (y =? v)) l.
+Proof. exact remove_id_order. Qed.
+
+(* a failed operation leaves the state as it was (clean failure), hence consistent *)
+Theorem C16_failed_op_leaves_state : forall w known o e, reachable_k w known -> step w o = Err e ->
+  step' w o = w /\ InvAll (step' w o) known.
+Proof. intros w known o e R. exact (failed_op_leaves_state w known o e (invall_reachable w known R)). Qed.
+
+(* the only KeyErrors are the built-in ones *)
+Theorem C16_keyerror_exactly_builtin : forall w known o, reachable_k w known -> op_okb w known o = true ->
+  (step w o = Err EKey <-> builtin_keyerror w o).
+Proof. intros w known o R. exact (keyerror_iff w known o (invall_reachable w known R)). Qed.
+
+(* non-vacuity: IRs 1, 2; modules 3, 4, 5; sections 6, 7; interval 8.  extend; insert of a module already in the list
+   (moved to the front); reverse; append to the other IR (moved); item assignment with a negative index of a module
+   owned by the other IR (moved, the replaced module detached); set update with two iterables, |= moving a section,
+   ^= moving it back; then the failures with the built-in exception types and the refused same-list shapes. *)
+Example C16_example :
+  let build := [ONew 1 KIR 101 None 0 0 0 PNone; ONew 2 KIR 102 None 0 0 0 PNone; ONew 3 KMod 103 None 0 0 0 PNone;
+     ONew 4 KMod 104 None 0 0 0 PNone; ONew 5 KMod 105 None 0 0 0 PNone; ONew 6 KSec 106 None 0 0 0 PNone;
+     ONew 7 KSec 107 None 0 0 0 PNone; ONew 8 KBI 108 None 4 0 0 PNone] in
+  let h1 := build ++ [OModExtend 1 [3; 4; 5]] in
+  let h2 := h1 ++ [OModInsert 1 0 5] in
+  let h3 := h2 ++ [OModReverse 1] in
+  let h4 := h3 ++ [OModAppend 2 3] in
+  let h5 := h4 ++ [OModSetItem 1 (-1) 3] in
+  let h6 := h5 ++ [OSet 3 [KSec] SUpdate [[6]; [7]]; OSet 4 [KSec] SIor [[6]]] in
+  let h7 := h6 ++ [OSet 3 [KSec] SIxor [[6; 7]]] in
+  let run l := fst (run_guarded w0 [] l) in
+  let w7 := run h7 in
+  let outcome o := (op_okb w7 [8; 7; 6; 5; 4; 3; 2; 1] o, match step w7 o with Ok _ => None | Err e => Some e end) in
+  all_guarded_ok w0 [] h7 = true /\
+  (kids (run h1) 1, kids (run h2) 1, kids (run h3) 1) = ([3; 4; 5], [5; 3; 4], [4; 3; 5]) /\
+  (kids (run h4) 1, kids (run h4) 2) = ([4; 5], [3]) /\
+  (kids (run h5) 1, kids (run h5) 2, par (run h5) 5, par (run h5) 3) = ([4; 3], [], None, Some 1) /\
+  (kids (run h6) 3, kids (run h6) 4) = ([7], [6]) /\ (kids w7 3, kids w7 4) = ([6], []) /\
+  map outcome [OModRemove 1 5; OModPop 1 7; OModDelItem 1 (-3); OSet 3 [KSec] SRemove [[7]]; OSet 4 [KSec] SPop [];
+               OSymxPopitem 8; OSymxDel 8 3; OModSetItem 1 0 3; OModSetSlice 1 (Some 0) (Some 1) [3]]
+  = [(true, Some EValue); (true, Some EIndex); (true, Some EIndex); (true, Some EKey); (true, Some EKey);
+     (true, Some EKey); (true, Some EKey); (true, Some EImpossible); (true, Some EImpossible)] /\
+  (kids (step' w7 (OModSetSlice 1 (Some 1) None [5; 3])) 1, kids (step' w7 (OModDelSlice 1 (Some (-1)) None)) 1,
+   kids (step' w7 (OModClear 1)) 1, kids (step' w7 (OModPop 1 (-2))) 1) = ([4; 5; 3], [4], [], [3]).
+Proof. vm_compute. repeat split. Qed.
+
+Print Assumptions C16_set_add.
+Print Assumptions C16_set_discard.
+Print Assumptions C16_set_remove.
+Print Assumptions C16_set_pop.
+Print Assumptions C16_set_clear.
+Print Assumptions C16_set_update.
+Print Assumptions C16_set_ior.
+Print Assumptions C16_set_iand.
+Print Assumptions C16_set_isub.
+Print Assumptions C16_set_ixor.
+Print Assumptions C16_modlist_append.
+Print Assumptions C16_modlist_insert.
+Print Assumptions C16_modlist_extend.
+Print Assumptions C16_modlist_remove.
+Print Assumptions C16_modlist_pop_delitem.
+Print Assumptions C16_modlist_delslice.
+Print Assumptions C16_modlist_setitem.
+Print Assumptions C16_modlist_setitem_index_error.
+Print Assumptions C16_modlist_setslice.
+Print Assumptions C16_same_list_assignment_refused.
+Print Assumptions C16_modlist_clear.
+Print Assumptions C16_modlist_reverse.
+Print Assumptions C16_symx_iteration_sorted.
+Print Assumptions C16_symx_setitem.
+Print Assumptions C16_symx_del_pop.
+Print Assumptions C16_symx_popitem.
+Print Assumptions C16_symx_setdefault.
+Print Assumptions C16_symx_update.
+Print Assumptions C16_symx_clear.
+Print Assumptions C16_symx_assign.
+Print Assumptions C16_symx_frame.
+Print Assumptions C16_moved_not_duplicated.
+Print Assumptions C16_remove_id_keeps_order.
+Print Assumptions C16_failed_op_leaves_state.
+Print Assumptions C16_keyerror_exactly_builtin.
+Print Assumptions C16_example.
